@@ -192,9 +192,15 @@ func main() {
 				if len(inflight) > 0 {
 					ci = inflight[0]
 				}
-				run.Violate(ci, "miner-process-died", map[string]string{"clause": "3", "what": "process-death", "first_line": first}, map[string]interface{}{
-					"exit_code": res.ExitCode, "signal": res.Signal, "fatal": fatal, "scenarios_in_flight": inflight, "seed": run.Seed, "wave": lo,
-					"note": "re-run the wave; the scenarios in flight are listed, their parameters are a function of (seed, index)"})
+				if fr := vh.DyingFrames(outFile); len(fr) > 0 && vh.CodeUnderTestFrame(fr) == "" {
+					// the process died in a goroutine without a frame of the code under test: a harness fault, never a verdict
+					run.Drop("child died in harness code")
+					run.Inconclusive("a child process died in harness code: " + fr[0])
+				} else {
+					run.Violate(ci, "miner-process-died", map[string]string{"clause": "3", "what": "process-death", "first_line": first}, map[string]interface{}{
+						"exit_code": res.ExitCode, "signal": res.Signal, "fatal": fatal, "scenarios_in_flight": inflight, "seed": run.Seed, "wave": lo,
+						"note": "re-run the wave; the scenarios in flight are listed, their parameters are a function of (seed, index)"})
+				}
 				for i := 0; i < missing; i++ {
 					run.Drop("child-died")
 				}
